@@ -694,5 +694,8 @@ func TestC11(t *testing.T) {
 		cleanup()
 	}
 	<-ageDone
+	for _, driver := range vlib.Drivers() {
+		c11ManyPeers(ev, driver, 300, 10)
+	}
 	finish(t, ev)
 }
